@@ -586,7 +586,7 @@ func c11Case(c *Ctx, id, stack string, items []string) {
 	c.Case("case %s %s", id, stack)
 	failed := strings.HasPrefix(id, "u")
 	viaWrapper := map[string]bool{}
-	lastOn := map[string]string{} // slot -> previous handle op on it
+	lastOn := map[string]string{} // slot -> "HReadAt" while a ReadAt may have moved the base handle alone
 	for i, it := range items {
 		c.Case("%s", it)
 		f := strings.Fields(it)
@@ -614,10 +614,15 @@ func c11Case(c *Ctx, id, stack string, items []string) {
 		}
 		sig := opName(it)
 		if isH {
-			if lastOn[f[3]] == "HReadAt" && f[2] != "HReadAt" {
+			// a ReadAt on this handle since the offsets were last set absolutely (Seek from start / end)
+			switch {
+			case f[2] == "HReadAt" && strings.HasPrefix(out, "data:"):
+				lastOn[f[3]] = "HReadAt"
+			case f[2] == "HSeek" && f[5] != "1" && strings.HasSuffix(out, ":-"):
+				delete(lastOn, f[3])
+			case lastOn[f[3]] == "HReadAt":
 				sig += "-after-HReadAt"
 			}
-			lastOn[f[3]] = f[2]
 		}
 		if !through || failed {
 			continue
